@@ -330,11 +330,16 @@ def observe_read(ep, chunks):
     return obs
 
 
-def observe_expect(ep, chunks, term, tmo):
+def observe_expect(ep, chunks, term, tmo, setbuf=False):
     obs = []
     c = ep.child
     for i, ch in enumerate(chunks):
         last = i == len(chunks) - 1
+        if setbuf and i and obs[-1].get('idx') == 1:
+            # the caller re-assigns the pending text between two calls, to the same value (after a TIMEOUT `before` is
+            # all of it; `buffer` itself may be trimmed to the search window): the bytes of a character that is still
+            # incomplete belong to the stream, not to the text, and must survive
+            c.buffer = c.before
         ep.feed(ch + (term if last else b''))
         try:
             idx = c.expect_exact([TERM if c.encoding else TERM.encode('ascii'), pexpect.TIMEOUT], timeout=tmo)
@@ -410,7 +415,8 @@ def observe_async_calls(ep, chunks, term):
 
 
 VARIANTS = [(t, v) for v in ('read', 'expect') for t in ('pty', 'fd', 'popen', 'socket')] + \
-           [(t, 'async') for t in ('pty', 'fd', 'socket')] + [(t, 'async_calls') for t in ('fd', 'socket')]
+           [(t, 'async') for t in ('pty', 'fd', 'socket')] + [(t, 'async_calls') for t in ('fd', 'socket')] + \
+           [(t, 'expect_setbuf') for t in ('pty', 'fd', 'socket', 'popen')]
 
 
 def observe(case, factory=None):
@@ -425,6 +431,8 @@ def observe(case, factory=None):
             return observe_read(ep, chunks)
         if v == 'expect':
             return observe_expect(ep, chunks, term, 0 if case['transport'] in ('pty', 'fd') else 0.004)
+        if v == 'expect_setbuf':
+            return observe_expect(ep, chunks, term, 0 if case['transport'] in ('pty', 'fd') else 0.004, setbuf=True)
         if v == 'async':
             return observe_async(ep, chunks, term)
         if v == 'async_calls':
@@ -441,6 +449,8 @@ def judge(case, obs):
     uni = case['mode'] == 'unicode'
     T = str if uni else bytes
     v = case['variant']
+    if v == 'expect_setbuf':
+        v = 'expect'
     term = TERM if uni else TERM.encode('ascii')
     steps = case['steps']
 
@@ -602,7 +612,7 @@ def run(ctx):
                  3 if quick else 4, len(g.nodes), g.n_edges(), npaths, len(paths), len(base), len(skipped)))
     del g
     # (3) replay
-    budget = {'read': 8000, 'expect': 4000, 'async': 3000, 'async_calls': 1500} if quick else {'read': 70000, 'expect': 35000, 'async': 25000, 'async_calls': 12000}
+    budget = {'read': 8000, 'expect': 4000, 'async': 3000, 'async_calls': 1500, 'expect_setbuf': 1500} if quick else {'read': 70000, 'expect': 35000, 'async': 25000, 'async_calls': 12000, 'expect_setbuf': 12000}
     jobs = []
     for t, v in VARIANTS:
         n = budget[v] if t != 'pty' else budget[v] // 2
